@@ -9,6 +9,8 @@
 # copy of the current tree OUTSIDE /repo and /verif, analysed (never executed), and must be
 # reported; the scratch copy is removed at once. A control whose patch does not apply to the
 # current tree is skipped (recorded in the evidence), never counted as a failure.
+# Negative controls (behaviour-preserving variants from benign/) are analysed the same way and
+# recorded; they are informational.
 set -u
 id=${1:?property id}
 tier=${2:-${VERIF_TIER:-quick}}
@@ -42,6 +44,26 @@ if [ "$tier" = thorough ]; then
     [ $first -eq 1 ] || echo "," >> "$controls"; first=0
     printf '{"control":"%s","status":"%s","rules":"%s"}' "$name" "$status" "$rules" >> "$controls"
     [ "$status" = MISSED ] && echo "CONTROL-FAILED property=$id positive control $name (a confirmed breaking change) was not reported" >&2
+  done
+  # negative controls: the repaired twin of this property's disguised seed (same refactoring, slip corrected) and the
+  # hand-written behaviour-preserving variants must NOT be reported. Informational: recorded in the evidence, never
+  # changes the exit status (two twins are documented limits, DESIGN §7.5).
+  for bd in "$here"/benign/R9-$id "$here"/benign/R7-* "$here"/benign/R8-*; do
+    [ -f "$bd/patch.diff" ] || continue
+    name=$(basename "$bd")
+    scratch=$(mktemp -d /tmp/argverif-ctl.XXXXXX)
+    cp -r "$repo"/. "$scratch"/ 2>/dev/null; rm -rf "$scratch/.git"
+    status=skipped-patch-does-not-apply; rules=""
+    if (cd "$scratch" && patch -p1 -s --no-backup-if-mismatch < "$bd/patch.diff" >/dev/null 2>&1); then
+      vd=$(mktemp -d /tmp/argverif-ctlv.XXXXXX); cp "$here/known_findings.json" "$vd/" 2>/dev/null
+      out=$("$bin" -repo "$scratch" -verif "$vd" -property "$id" -tier quick 2>&1); rc=$?
+      rules=$(echo "$out" | grep -oE "rule=[A-Z0-9-]+" | sort -u | sed 's/rule=//' | tr '\n' ' ')
+      if [ $rc -eq 0 ]; then status=silent; elif [ $rc -eq 2 ]; then status=not-analysable; else status=reported-though-benign; fi
+      rm -rf "$vd"
+    fi
+    rm -rf "$scratch"
+    [ $first -eq 1 ] || echo "," >> "$controls"; first=0
+    printf '{"control":"%s","kind":"negative","status":"%s","rules":"%s"}' "$name" "$status" "$rules" >> "$controls"
   done
   echo "]" >> "$controls"
 fi
